@@ -194,6 +194,8 @@ func c10Run(e *core.Env) {
 	if e.Thorough() {
 		wins = append(wins, win{"2019-11-15", "2021-03-10"}, win{"2020-02-29", "2024-02-29"})
 	}
+	// windows of centuries (the daily expansion of the first one has 106 753 instalments)
+	longWins := []win{{"1700-01-01", "1992-04-12"}, {"1700-01-01", "2023-12-31"}, {"1000-01-01", "3000-12-31"}}
 	try := func(d jr.Dir) {
 		if !e.Take() {
 			return
@@ -235,6 +237,17 @@ func c10Run(e *core.Env) {
 						}
 					}
 				}
+			}
+		}
+	}
+	for _, w := range longWins {
+		for _, iv := range ivs {
+			if iv == "daily" && w.e > "2000" {
+				continue
+			}
+			for _, q := range []string{"100", "1000000.000001"} {
+				try(jr.Dir{Kind: jr.Trx, Date: "2020-02-01", Desc: "long", Books: []jr.Booking{{Credit: "Assets:Bank", Debit: "Expenses:Rent", Qty: q, Com: "CHF"}},
+					Accrue: &jr.Accrual{Interval: iv, Start: w.s, End: w.e, Acc: "Assets:Receivables"}})
 			}
 		}
 	}
